@@ -603,7 +603,9 @@ impl<S: WebSocket, T: TimestampProvider> Task<S, T> {
             buf: Bytes::new(),
             tx_msg_tx: self.tx_msg_tx.clone(), // cheap
             dropped_flows_tx: self.dropped_flows_tx.clone(), // cheap
-            rwnd_threshold: self.default_rwnd_threshold.min(peer_rwnd),
+            // The threshold must not exceed the window we grant to the peer (`self.rwnd`):
+            // otherwise the peer runs out of credit before we ever acknowledge.
+            rwnd_threshold: self.default_rwnd_threshold.min(self.rwnd),
         };
         (stream, stream_data)
     }
